@@ -266,7 +266,7 @@ class State:
         self.flags = flags          # which kinds of operation happened since the last reset (hidden counters, see canon)
 
 
-BASE_OPS = [["read", "array"], ["read", "frame"], ["arr", "ones"], ["empty"], ["rm", "all"], ["arr", "single"],
+BASE_OPS = [["read", "array"], ["read", "frame"], ["read", "numpy"], ["arr", "ones"], ["empty"], ["rm", "all"], ["arr", "single"],
             ["rm", "first"], ["arr", "hole"], ["arr", "zeros"], ["upd", "number"], ["upd", "move"]]
 
 
@@ -342,6 +342,8 @@ class Model:
                 return np.array(charge.array, dtype=float, copy=True)
             if op[1] == "frame":
                 return frame_rows(charge.frame)
+            if op[1] == "numpy":                # the numpy protocol: np.asarray(detector.charge), as writers of files use it
+                return np.array(np.asarray(charge), dtype=float, copy=True)
             return np.array(charge.to_xarray().values, dtype=float, copy=True)
         if name == "arr":
             a = make_array(op[1])
@@ -417,7 +419,7 @@ class Model:
             else:
                 if obs.visible() != before.visible():
                     bad("read-changed", f"reading .{op[1]} changed the observable state to {obs.describe()}")
-                if op[1] in ("array", "xarray") and not (val.shape == acc.shape and np.array_equal(val, acc)):
+                if op[1] in ("array", "xarray", "numpy") and not (val.shape == acc.shape and np.array_equal(val, acc)):
                     bad("read-value", f".{op[1]} returned {val.tolist()} but the accumulated charge is {acc.tolist()}")
                 if op[1] == "xarray":
                     # an exported report is a record of the charge at the time of the call: charge added afterwards must
